@@ -37,11 +37,14 @@ class StartStageOrchestrationMixin:
         self,
         stage: StageExecution,
         message: StartStage,
+        new_synthetic_stages: list[StageExecution] | None = None,
     ) -> list[Message]:
         """Collect messages needed to start the stage.
 
         This method queries the repository but doesn't push any messages.
         The caller is responsible for pushing the returned messages atomically.
+        ``new_synthetic_stages`` are the before stages planned just now, which
+        the caller persists in that same transaction.
         """
         messages: list[Message] = []
 
@@ -49,6 +52,7 @@ class StartStageOrchestrationMixin:
         synthetic_stages = self.repository.get_synthetic_stages(stage.execution.id, stage.id)
         if synthetic_stages is None:
             synthetic_stages = []
+        synthetic_stages = list(synthetic_stages) + list(new_synthetic_stages or [])
 
         # Check for before stages
         before_stages = [
